@@ -91,6 +91,13 @@ def forms_and_large(ctx, ids, cases):
                         sd.threshold_event(ev, s, o, m, [1, 2], g, order=rnd.permutation(nt))
                     else:
                         sd.threshold_event(ev, s, o, m, [1, 2], g, form=forms[(k + j) % 4])
+            if o["ep"] == 0 and o["en"] == 0 or k % 4 == 0:
+                og = dict(o, ep=0, en=0)
+                sg = sd.new_group_event(ev, og, g, h=2, seed=k)      # subclass, unsorted input
+                if sg is not None:
+                    for j, m in enumerate(sd.METRICS):
+                        if sd.rel_scores(og, m):
+                            sd.threshold_event(ev, sg, og, m, [1, 2], g, h=2)
         out += evs
     for k, n in enumerate([150, 1200] if ctx.tier == "quick" else [150, 400, 1200, 3000]):
         vals = rnd.randint(0, max(10, n // 5), n)
